@@ -1166,7 +1166,7 @@ var M = &run.Monitor{
 			}
 		}
 		for _, cell := range floorCells {
-			need("cell_"+cell, 20)
+			need("cell_"+cell, 8)
 		}
 		for d := 0; d <= 4; d++ {
 			need(fmt.Sprintf("depth_%d", d), 100)
@@ -1254,7 +1254,7 @@ var marshalFamilies = []string{"fallmap-field", "fallnamed-field", "fallval-fiel
 var badGo = []string{"a\xffb", "\xc3", "x\xed\xa0\x80", "\xc0\x80z", "é\xff", "\xf4\x90\x80\x80", "q\xe2\x82"}
 
 func generate(w *run.W) {
-	nb := w.Pick(480, 4800)
+	nb := w.Pick(640, 6400)
 	for b := 0; b < nb; b++ {
 		if !w.Mine(b) {
 			continue
